@@ -85,7 +85,7 @@ G = {}      # worker globals (inherited by fork)
 
 class Mode:
     def __init__(self, name, opts, files, pairs, keep=False, stdout=None, stdin=None, nosync=False, invalid=False,
-                 listfile=False, witness=False):
+                 listfile=False, witness=False, mixed=False):
         self.name = name
         self.opts = opts            # xz options (file operands are appended)
         self.files = files          # name -> bytes: initial content of the scratch directory
@@ -97,6 +97,7 @@ class Mode:
         self.invalid = invalid
         self.listfile = listfile
         self.witness = witness      # also used for the strace witness
+        self.mixed = mixed          # per-pair validity (pair["invalid"]); clean-run oracle only, no fault plans
 
 
 def xz_decode_strict(data):
@@ -254,6 +255,33 @@ def make_modes(seed, tier):
     add("d_bad_mid", ["-d", "-T1"], decomp(lambda r: multi(r, 3), ["-T1", "-0"], flip_mid), invalid=True)
     add("d_bad_trunc", ["-d", "-T1"], decomp(small, ["-T1", "-0"], trunc), invalid=True)
     add("d_bad_magic", ["-d", "-T1"], garbage, invalid=True)
+    # one invocation, several operands of different formats, a later one invalid only through what follows its
+    # end: per-file decoder settings (e.g. "trailing data is fine" for .lz) must not leak into the next file
+    def mixed_formats(order):
+        def f(r):
+            import glob as _g
+            tf = os.path.join(build.SRC, "tests", "files")
+            lz = open(os.path.join(tf, "good-1-v1-trailing-1.lz"), "rb").read()
+            lz_plain = b"Hello\nWorld!\n"
+            p1 = small(r)
+            lzma_ok = xz_compress(p1, ["--format=lzma", "-0"])
+            p2 = small(r)
+            xz_ok = xz_compress(p2, ["-T1", "-0"])
+            items = {
+                "lz": ("a.lz", lz, dict(src="a.lz", tgt="a", op="d", plain=lz_plain)),
+                "lzma_bad": ("b.lzma", lzma_ok + r.randbytes(24), dict(src="b.lzma", tgt="b", op="d", plain=p1, invalid=True)),
+                "xz": ("c.xz", xz_ok, dict(src="c.xz", tgt="c", op="d", plain=p2)),
+                "xz_bad": ("d.xz", xz_ok + b"trailing garbage", dict(src="d.xz", tgt="d", op="d", plain=p2, invalid=True)),
+            }
+            files, pairs = {}, []
+            for k in order:
+                nm, data, pair = items[k]
+                files[nm] = data
+                pairs.append(pair)
+            return files, pairs
+        return f
+    add("d_mixed_lz_lzma", ["-d", "-T1"], mixed_formats(["lz", "lzma_bad", "xz"]), mixed=True)
+    add("d_mixed_xz_lz_bad", ["-d", "-T1"], mixed_formats(["xz", "lz", "xz_bad", "lzma_bad"]), mixed=True)
     # since 5.7.1alpha --single-stream implies --keep (and --keep implies --no-sync: nothing is removed)
     add("d_single", ["-d", "--single-stream", "-T1"], decomp(small, ["-T1", "-0"], trailing), keep=True)
     return modes
@@ -645,7 +673,19 @@ def evaluate(mode, pi, run, clean):
         if exp is None:
             # the clean run itself: the reference behaviour of the mode
             ok_out = stdout_valid(mode, run["stdout"])
-            if mode.invalid:
+            if mode.mixed:
+                # several operands in one invocation, some valid and some invalid: every file is judged on its own
+                # (no state may be carried from one file to the next)
+                if rc == 0:
+                    add("exit-zero-on-invalid-input|%s" % mode.name, "an invalid operand was accepted: exit status 0")
+                for i, (s_, t_) in enumerate(states):
+                    bad = mode.pairs[i].get("invalid")
+                    want = ("intact", "absent") if bad else ("absent", "valid")
+                    if (s_, t_) != want:
+                        add("invalid-input-state|%s" % mode.name,
+                            "operand %d (%s, %s): source %s, target %s after %s; wanted %r" % (
+                                i, mode.pairs[i]["src"], "invalid" if bad else "valid", s_, t_, describe_rc(rc), want))
+            elif mode.invalid:
                 if rc == 0:
                     add("exit-zero-on-invalid-input|%s" % mode.name, "invalid input accepted with exit status 0")
                 elif rc > 0 and stderr_empty:
@@ -1067,7 +1107,7 @@ def run(ctx):
                 all_singles_planned = False
                 continue
             recs = uo.parse_log(c["logtext"])
-            plans, single = plans_for(m, recs, ctx.tier, rng)
+            plans, single = ([], 0) if m.mixed else plans_for(m, recs, ctx.tier, rng)
             n_calls = len([r for r in recs if not uo.is_pseudo(r)])
             per_mode[m.name] = dict(calls=n_calls, plans=len(plans), single_fault_plans=single,
                                     by_kind=dict(collections.Counter(r["kind"] for r in recs)))
